@@ -125,7 +125,43 @@ def _marker_blocks(ctx):
               'SINK', 'prep_new_tract stages the (cleaned) block as the description')
 
 
+def _parser_level_unused_is_flagged(ctx):
+    """PLSSParser.unused_components receives text from two sides: the chunk
+    parsers, and - with `segment` - the chunker's own leading / trailing text
+    that belongs to no chunk.  The unused_desc flags must therefore be made
+    from PLSSParser.unused_components itself; flags made inside each
+    ChunkParser never see the chunker's text."""
+    ci = ctx.repo.cls('plss_parse:PLSSParser')
+    fed = None
+    for m in ci.methods.values():
+        for c in ast.walk(m.node):
+            if isinstance(c, ast.Call) and isinstance(c.func, ast.Attribute) and c.func.attr in ('extend', 'append') \
+                    and norm(c.func.value) == 'self.unused_components' and any('chunker' in norm(a) for a in c.args):
+                fed = (m, c)
+    if fed is None:
+        ctx.undecided('SINK', "the chunker's leading / trailing text is flagged", 'no hand-over from the chunker found')
+        return
+    flagged = False
+    for f in ctx.repo.funcs.values():
+        top = f
+        while top.outer is not None:
+            top = top.outer
+        if top.cls is not ci:
+            continue
+        for lp in ast.walk(f.node):
+            if isinstance(lp, ast.For) and 'self.unused_components' in norm(lp.iter):
+                body_txt = ' '.join(norm(x) for x in ast.walk(lp) if isinstance(x, (ast.JoinedStr, ast.Call)))
+                if 'unused_desc<' in body_txt or 'flag_unused' in body_txt:
+                    flagged = True
+    ctx.check(flagged, 'SINK', "the chunker's leading / trailing text is flagged",
+              detail_bad=f"`{norm(fed[1])[:60]}` puts the text the chunker cuts off (before the first / after the last Twp/Rge, with "
+                         f"`segment`) into PLSSParser.unused_components, but no loop in PLSSParser turns that list into unused_desc "
+                         f"flags any more: such text is in no tract and in no flag", key="SINK|PLSSParser|chunker-unused-unflagged",
+              where=common.loc(fed[0], fed[1]))
+
+
 def _unused_flow(ctx):
+    ctx.attempt(_parser_level_unused_is_flagged)
     safe = ctx.repo.func('ChunkParser.parse_safe')
     t = [norm(s) for s in walk_local(safe.node) if isinstance(s, ast.stmt)]
     ctx.shape('parent.unused_components.extend(self.unused_components)' in t, 'SINK',
@@ -283,7 +319,22 @@ def _preprocess(ctx):
                   detail_bad=f"{name} contains {sorted(set(out))}: whatever word matches it becomes part of the section / "
                              f"Twp/Rge reference and disappears from every description without a flag",
                   key=f"SINK|{name}|wildcard|{','.join(sorted(set(out)))}", where=rv.module)
+    whitespace_only(ctx)
+
+
+def whitespace_only(ctx):
+    """reduce_whitespace (run on the whole description before anything is cut
+    out of it) rewrites whitespace and nothing else: what it changes is changed
+    in every description block"""
     rw = ctx.repo.func('plss_preprocess:reduce_whitespace')
+    # str.replace() of a visible character
+    for c in walk_local(rw.node):
+        if isinstance(c, ast.Call) and isinstance(c.func, ast.Attribute) and c.func.attr in ('replace', 'translate') and c.args:
+            a0 = ctx.fold.eval(c.args[0], {}, rw.module.name)
+            vis = isinstance(a0, str) and any(not ch.isspace() for ch in a0)
+            ctx.check(not vis, 'SINK', 'reduce_whitespace only rewrites whitespace',
+                      detail_bad=f"`{norm(c)[:50]}` rewrites a visible character throughout the text: the description blocks are no "
+                                 f"longer the text as written", key="SINK|reduce_whitespace|replace", where=common.loc(rw, c))
     pats = [(a_, b_) for a_, b_, _c in common.sub_pairs(ctx, rw)]
     n_calls = len([c for c in walk_local(rw.node) if isinstance(c, ast.Call) and dotted(c.func) == 're.sub'])
     ok = bool(pats) and all(isinstance(p, str) and isinstance(r, str) and
